@@ -67,6 +67,13 @@ def jobs(tier, seed):
                         out.append({"name": f"{kern}-rho{rho}-perm{int(perm)}-{f.describe()}", "kernel": kern, "rho": rho, "perm": perm,
                                     "blocks": f.blocks, "parent": f.parent, "outliers": f.outliers, "m": m,
                                     "cost": (len(f.roots()) + 1) ** 2 * (3 if rho != "0" else 1) * (4 if kern != "bootstrap" else 1)})
+    if tier == "quick":
+        # one parent with three top-level clones (new clones above 2-of-3 subsets only exist from here on)
+        three = Forest([[0], [1], [2]], [None, None, None], [], n=3)
+        for kern in KERNELS:
+            for rho in ("0", "sym"):
+                out.append({"name": f"{kern}-rho{rho}-perm1-{three.describe()}", "kernel": kern, "rho": rho, "perm": True,
+                            "blocks": three.blocks, "parent": three.parent, "outliers": [], "m": 3, "cost": 60})
     two = Forest([[0], [1]], [None, None], [], n=2)
     for cname, kern in (("bootstrap_half_is_third", "bootstrap"), ("semi_new_node_missing_half", "semi-adapted"),
                         ("weight_omits_log_q", "fully-adapted"), ("last_step_correction_dropped", "bootstrap")):
